@@ -611,7 +611,7 @@ func main() {
 		from, _ := strconv.Atoi(os.Args[3])
 		to, _ := strconv.Atoi(os.Args[4])
 		reps, _ := strconv.Atoi(os.Args[5])
-		plainHist(base, from, to, reps, os.Args[6])
+		plainHist(base, from, to, reps, os.Args[6], len(os.Args) > 7 && os.Args[7] == "rev")
 	case "racesweep":
 		base, _ := strconv.ParseUint(os.Args[2], 10, 64)
 		rounds, _ := strconv.Atoi(os.Args[3])
